@@ -33,7 +33,7 @@ REAL_COMPONENTS = ["cli _run launch loop", "expand_run_space (plan source)", "Ru
 STUB_COMPONENTS = ["leaf processors", "SvOrchestrator/RecordingExecutor selected from YAML", "SimClock/SimUUID", "file seam"]
 ASSUMPTIONS = ["the plan is taken from expand_run_space (C08 is not claimed)", "trace content is compared after removing the C10 "
                "volatile fields and the run-space FK fields (launch id, attempt, index, context)"]
-REQUIRED_PROBES = ["empty_plan", "yaml_not_in_cwd_with_source_and_decoy", "other_process_other_hashseed", "failing_run", "source_file", "idempotency_key", "explicit_launch_id", "attempt_gt_1", "multi_run_launch", "directory_mode", "run_space_nested_under_pipeline", "null_cell_in_later_row", "non_ascii_run_space_value", "failing_run_with_non_exception_abort", "source_changed_keeping_size_and_mtime", "context_flag_for_a_run_space_key"]
+REQUIRED_PROBES = ["empty_plan", "yaml_not_in_cwd_with_source_and_decoy", "other_process_other_hashseed", "failing_run", "source_file", "idempotency_key", "explicit_launch_id", "attempt_gt_1", "multi_run_launch", "directory_mode", "run_space_nested_under_pipeline", "null_cell_in_later_row", "non_ascii_run_space_value", "failing_run_with_non_exception_abort", "source_changed_keeping_size_and_mtime", "context_flag_for_a_run_space_key", "node_mutating_a_context_list_in_place"]
 CONFIG = {
     "quick": {"runs": 800, "budget_s": 240, "timeout_s": 180},
     "thorough": {"runs": 30000, "budget_s": 1600, "timeout_s": 180},
@@ -51,6 +51,12 @@ def generate(rng: random.Random, tier: str, seed: int) -> dict:
         base = gen.gen_pipeline(rng, max_nodes=5)
         if base["init_data"] is None:
             break
+    if base.get("truth") and base["truth"][-1]["out"] == "float" and rng.random() < 0.1:
+        # a node that mutates, in place, a list it received from the context: what one run does to it must not reach the next
+        base = dict(base, nodes=base["nodes"] + [{"processor": "SvAppendInPlace"}], context=dict(base["context"], acc=[]))
+        in_place = True
+    else:
+        in_place = False
     num_keys = [k for k, v in base["context"].items() if isinstance(v, float)]
     rsd = gen.gen_run_space(rng, sorted(num_keys)[:3], allow_source=True, exotic=True)
     opt = rng.choice(["generated", "generated", "explicit", "idem"])
@@ -58,6 +64,7 @@ def generate(rng: random.Random, tier: str, seed: int) -> dict:
           "mode": rng.choice(["file", "dir"]), "detail": rng.choice(harness.DETAILS), "launch_opt": opt,
           "attempt": rng.choice([1, 1, 2, 3]), "fail_at": rng.choice([None, None, 0, 1, 2, 3]),
           "fail_node": rng.randrange(len(base["nodes"])), "mut_seed": rng.getrandbits(32)}
+    sc["in_place_mutation"] = in_place
     sc["rs_file"] = rng.random() < 0.2
     sc["subdir"] = rng.random() < 0.35          # the YAML (and its source files) live in cfg/, the CLI runs from the parent directory
     if rng.random() < 0.06:
@@ -503,6 +510,8 @@ def execute(sc: dict, seed: int) -> dict:
                 viols.append(oracles.V("spec_id", "changes_with_file_content", f"{where}; {spec_id} vs {s6.get('run_space_spec_id')}"))
         if sc.get("ctx_flag_for_plan_key") and any(k in all_keys for k in ctx0):
             stats["probe.context_flag_for_a_run_space_key"] = 1
+        if sc.get("in_place_mutation"):
+            stats["probe.node_mutating_a_context_list_in_place"] = 1
         if fail_at is not None:
             stats["probe.failing_run"] = 1
             stats["fault.exception"] = 1
